@@ -275,7 +275,15 @@ TomlTable(v, path, style) ==
   IN FoldLeft(LAMBDA acc, kv : acc \o TomlKey(kv[1]) \o <<32, 61, 32>> \o TomlInline(kv[2]) \o <<LF>>, <<>>, plain)
      \o FoldLeft(LAMBDA acc, kv : acc \o <<91>> \o JoinDot(Append(path, kv[1])) \o <<93, LF>> \o TomlTable(kv[2], Append(path, kv[1]), style), <<>>, tabs)
      \o FoldLeft(LAMBDA acc, kv : acc \o FoldLeft(LAMBDA a2, el : a2 \o <<91, 91>> \o JoinDot(Append(path, kv[1])) \o <<93, 93, LF>> \o TomlTable(el, Append(path, kv[1]), style), <<>>, kv[2].e), <<>>, arrs)
-TomlWrite(v, style) == TomlTable(v, <<>>, style)
+\* style 3: a chain of single-entry tables is written as one dotted key (`a.b.c = 1`), at the top level and inside inline tables
+RECURSIVE DotPath(_,_), TomlInlineD(_)
+DotPath(path, v) == IF v.k = "map" /\ Len(v.m) = 1 THEN DotPath(Append(path, v.m[1][1]), v.m[1][2]) ELSE [p |-> path, v |-> v]
+TomlEntryD(kv) == LET d == DotPath(<<kv[1]>>, kv[2]) IN JoinDot(d.p) \o <<32, 61, 32>> \o TomlInlineD(d.v)
+TomlInlineD(v) ==
+  CASE v.k = "seq" -> <<91>> \o FoldLeft(LAMBDA acc, i : acc \o (IF i > 1 THEN <<44, 32>> ELSE <<>>) \o TomlInlineD(v.e[i]), <<>>, [i \in DOMAIN v.e |-> i]) \o <<93>>
+    [] v.k = "map" -> <<123, 32>> \o FoldLeft(LAMBDA acc, i : acc \o (IF i > 1 THEN <<44, 32>> ELSE <<>>) \o TomlEntryD(v.m[i]), <<>>, [i \in DOMAIN v.m |-> i]) \o <<32, 125>>
+    [] OTHER -> TomlInline(v)
+TomlWrite(v, style) == IF style = 3 THEN FoldLeft(LAMBDA acc, kv : acc \o TomlEntryD(kv) \o <<LF>>, <<>>, v.m) ELSE TomlTable(v, <<>>, style)
 \* the value a TOML document written in style 1 denotes: plain keys first, then tables, then arrays of tables (document order)
 Kind3(x) == IF IsTable(x) THEN 2 ELSE IF IsTableArray(x) THEN 3 ELSE 1
 Sel(v, k) == SelectSeq(v.m, LAMBDA kv : Kind3(kv[2]) = k)
